@@ -26,6 +26,7 @@ def run(rep, tier, seed):
         ]
     T.tracer_check(rep, configs, "C06", nontrivial=lambda h: sum(1 for e in h if e["c"] in ("fwd", "pb", "drv", "other")) >= 2)
     T.full_api_histories(rep, seed, n=60 if q else 400)
+    T.validate_recorded(rep, "C06", repo_tests=False)
     T.self_test(rep)
     return rep.finish("one case = (program, history of calls); non-trivial = history with >= 2 calls; distinct by (config, behaviour); "
                       "plus randomly generated full-API programs (tan, sqrt, exp, dot, inv, qr ...) with two reverse sweeps after one forward")
